@@ -246,10 +246,12 @@ where
                                     return Ok(Some(right));
                                 }
                             }
-                            t => Err(format!("Association created with non-symbol type {:?} on pair left.", t))?,
+                            // a pair whose left side is not a symbol is an unkeyed item
+                            _ => (),
                         }
                     }
-                    t => Err(format!("Association created with non-pair type {:?}.", t))?,
+                    // every item of the list has a slot here; one that is not a pair is an unkeyed item
+                    _ => (),
                 },
             }
             
